@@ -317,3 +317,91 @@ def matcher(t0: int) -> bool:
                 break
     tock("matcher")
     return ok
+
+
+# ------------------------------------------------------------------------------------ references over the USE worlds
+from lib.world import W  # noqa: E402
+
+VISW = [0, 1, -1, 2, -2]
+KF_REEXPORT = kf_active("C05-reexport-private-default")
+ENT_NAME = {"m1:a": "a", "m1:b": "b", "m1:c": "c", "m1:ex": "ex", "m2:d": "d", "main:a": "a", "inner:a": "a"}
+
+
+def check_world_refs(w: W, meth: int):
+    files = w.files()
+    if not w.conforming():
+        return None
+    srv = ws.reset(SRV, files)
+    method = ["textDocument/references", "textDocument/documentHighlight"][meth]
+    by_ent = {}
+    for path, line, col, name, scope in w.sites:
+        e = w.resolve(scope, name)
+        if e in (None, "AMBIGUOUS"):
+            continue
+        by_ent.setdefault(e, []).append((path, line, col, name))
+    site_ent = {(p, ln, c): w.resolve(sc, n) for p, ln, c, n, sc in w.sites}
+    for ent, (dpath, dline, dcol) in w.decl.items():
+        if ent not in ENT_NAME:
+            continue
+        r0 = ws.request(srv, method, dpath, dline, dcol)
+        if r0[0] != "resp" or r0[1] is None:
+            return f"{method} on the declaration of {ent} ({dpath}:{dline}:{dcol}) -> {r0}\n" + C5dump(files)
+        base = loc_set(r0[1])
+        if meth == 1:  # documentHighlight: this file only
+            own = [s_ for s_ in by_ent.get(ent, []) if s_[0] == dpath]
+        else:
+            own = by_ent.get(ent, [])
+        # the declaration itself is an occurrence
+        if (dpath, dline, dcol, dcol + len(ENT_NAME[ent])) not in base:
+            return f"{method} of {ent}: the declaration {dpath}:{dline}:{dcol} is not among {base}\n" + C5dump(files)
+        for (p, ln, c, n) in own:
+            if n != ENT_NAME[ent]:
+                continue  # renamed local alias: known finding C06-use-rename-clause
+            if (p, ln, c, c + len(n)) not in base:
+                return f"{method} of {ent} misses its use at {p}:{ln}:{c} (answer {base})\n" + C5dump(files)
+            # the same set from whichever occurrence
+            r1 = ws.request(srv, method, p, ln, c + 1 if len(n) > 1 else c)
+            got1 = loc_set(r1[1]) if r1[0] == "resp" and r1[1] is not None else r1
+            want1 = base if meth == 0 or p == dpath else None
+            if want1 is not None and got1 != want1:
+                return f"{method} of {ent} from the use at {p}:{ln}:{c} -> {got1}, from the declaration -> {base}\n" + C5dump(files)
+        # nothing bound to a different entity (or to nothing) may be returned
+        for (p, ln, c, e_) in base:
+            if (p, ln, c) in site_ent and site_ent[(p, ln, c)] != ent:
+                other = site_ent[(p, ln, c)]
+                if KF_REEXPORT and other is None and w.m2_private and w.target == "m2":
+                    continue  # known finding C05-reexport-private-default: resolved although inaccessible
+                return f"{method} of {ent} returns {p}:{ln}:{c}, which is bound to {other}\n" + C5dump(files)
+    return None
+
+
+def C5dump(files):
+    return "\n".join(f"--- {p}\n" + "\n".join(f"{i}: {ln}" for i, ln in enumerate(t.split("\n"))) for p, t in files.items())
+
+
+def refs_worlds(va: int, u21: int, up: int, meth: int) -> bool:
+    """the USE/accessibility worlds of lib/world.py (accessibility of a x how m2 uses m1 x how main uses its module
+    symbolic; default PRIVATE, re-export, target, local/host declarations, second USE enumerated inside): for every
+    declared entity, references / documentHighlight from the declaration contain the declaration and every use site
+    the reference resolver binds to it, contain no use site bound to something else, and are the same from every
+    such use site
+    pre: 0 <= va <= 4 and 0 <= u21 <= 3 and 0 <= up <= 5 and 0 <= meth <= 1 and (va * 7 + u21 * 3 + up) % NPART == PART
+    post: _
+    """
+    tick("refs_worlds")
+    va, u21, up, meth = conc(va, 0, 4), conc(u21, 0, 3), conc(up, 0, 5), conc(meth, 0, 1)
+    ok = True
+    with NoTracing():
+        import itertools
+
+        vbs = (0, -1, 2) if THOROUGH else (0,)
+        las = range(4) if THOROUGH else (0, 3)
+        for m1p, vb, m2p, m2pub, target, la, su in itertools.product((False, True), vbs, (False, True), (False, True), ("m1", "m2"), las, (0, 1)):
+            w = W(m1p, VISW[va], vb, 0, u21, m2p, m2pub, target, up, la, su)
+            msg = check_world_refs(w, meth)
+            if msg:
+                FAIL.append(msg)
+                ok = False
+                break
+    tock("refs_worlds")
+    return ok
